@@ -2605,6 +2605,29 @@ package gomatrixserverlib
 //@   nosafety
 //@   ensures unconflicted-state-is-re-applied-after-the-last-auth-pass: called(authAndApplyEvents) ==> ncalls(applyEvents) == after(authAndApplyEvents, ncalls(applyEvents)) + 1
 
+// The auth difference of v2 / v2.1: the union of the full auth chains of ALL state sets minus the intersection of
+// ALL of them (the running intersection is what is intersected further, starting from the first chain). The sets
+// library is not entered: what is pinned is which set every operation is applied to, for every number of state sets.
+// (the depth-first walk itself is not under contract; callers use it as an opaque function)
+//@ func (*stateResolverV2).calculateFullAuthChainAndConflictedSubgraph
+//@   nosafety
+//@   opaque
+//@   requires r != nil
+
+//@ func (*stateResolverV2).calculateAuthDifferenceNew
+//@   property C10, C11
+//@   nosafety
+//@   requires r != nil && len(stateSets) >= 2
+//@   calls calculateFullAuthChainAndConflictedSubgraph@root one-full-auth-chain-per-state-set: 0 <= idx(1) && idx(1) < len(stateSets) && stateEvents == stateSets[idx(1)] && conflictedEvents == root_conflictedEvents && stateResAlgo == root_stateResAlgo
+//@   calls InsertSet@root union-takes-every-full-auth-chain: ref(s) == ref(completeConflictedSubgraph) || (ref(s) == ref(union) && 0 <= idx(2) && idx(2) < len(fullAuthChains) && ref(col) == ref(fullAuthChains[idx(2)]))
+//@   calls Intersect@root with-the-next-chain: 0 <= idx(3) && idx(3) + 1 < len(fullAuthChains) && ref(arg0) == ref(fullAuthChains[idx(3) + 1])
+//@   calls Intersect@root starting-from-the-first-chain: ncalls(Intersect) == 0 ==> ref(recv) == ref(fullAuthChains[0])
+//@   calls Intersect@root the-running-intersection-is-intersected-further: ncalls(Intersect) > 0 ==> recv == ret(Intersect)
+//@   calls Difference@root union-minus-intersection: ref(s) == ref(union) && col == intersection && ncalls(Intersect) == len(fullAuthChains) - 1 && ncalls(InsertSet) >= len(fullAuthChains)
+//@   loop 1: invariant 0 <= idx(1) && idx(1) <= len(stateSets) && len(fullAuthChains) == len(stateSets) && ncalls(InsertSet) >= 0
+//@   loop 2: invariant 0 <= idx(2) && idx(2) <= len(fullAuthChains) && len(fullAuthChains) == len(stateSets) && ncalls(InsertSet) >= idx(2)
+//@   loop 3: invariant 0 <= idx(3) && idx(3) <= len(fullAuthChains) - 1 && len(fullAuthChains) == len(stateSets) && ncalls(Intersect) == idx(3) && ncalls(InsertSet) >= len(fullAuthChains) && (idx(3) == 0 ==> ref(intersection) == ref(fullAuthChains[0])) && (idx(3) > 0 ==> intersection == ret(Intersect))
+
 // iterative auth checks: every event is checked against a provider that was emptied for it (no auth event loaded
 // for an earlier event of the batch can satisfy a later one)
 //@ func (*stateResolverV2).authAndApplyEvents
